@@ -438,16 +438,18 @@ theorem bindTable_first_rejection (regs : List Reg) : ∀ (tbl : Table) (v : Reg
 /-- `NewServer` starts from an empty router; options only touch the custom handlers; `AddRoutes` only the groups. -/
 theorem newServer_core (opts : List RunOpt) : (newServer opts).router.core = ({} : Router) ∧ (newServer opts).groups = [] := by
   unfold newServer
-  suffices h : ∀ (s : Server) (l : List RunOpt), (l.foldl Server.apply s).router.core = s.router.core ∧
-      (l.foldl Server.apply s).groups = s.groups from h {} _
-  intro s l
-  induction l generalizing s with
-  | nil => exact ⟨rfl, rfl⟩
+  suffices h : ∀ (l : List RunOpt) (s : Server), s.router.core = ({} : Router) → s.groups = [] →
+      (l.foldl Server.apply s).router.core = ({} : Router) ∧ (l.foldl Server.apply s).groups = [] from
+    h _ {} rfl rfl
+  intro l
+  induction l with
+  | nil => intro s h1 h2; exact ⟨h1, h2⟩
   | cons o l ih =>
+    intro s h1 h2
     simp only [List.foldl_cons]
-    obtain ⟨e1, e2⟩ := ih (s.apply o)
-    rw [e1, e2]
-    cases o <;> exact ⟨rfl, rfl⟩
+    apply ih
+    · cases o <;> first | exact h1 | rfl
+    · cases o <;> exact h2
 
 /-- the user's custom handlers of a server: the last `WithNotFoundHandler` / `WithNotAllowedHandler` wins. -/
 example : customOf (newServer [.notFound (some 7), .notAllowed (some 8), .notFound none]).router = { nf := none, na := some 8 } := by
